@@ -108,7 +108,7 @@ func famRegistry(w *World, c *Case, rng *rand.Rand) {
 	}
 	if c.p("park", 0) == 1 {
 		plan := &YieldPlan{Parks: map[string][]time.Duration{}}
-		for _, pt := range []string{"rev.open.created", "rev.open.betweenAdds", "rev.unregister.between", "client.close.afterTearDown", "revsrv.serve.beforeAdd"} {
+		for _, pt := range []string{"rev.open.created", "rev.open.betweenAdds", "rev.open.beforeKeyAdd", "rev.unregister.between", "client.close.afterTearDown", "revsrv.serve.beforeAdd"} {
 			ds := make([]time.Duration, 200)
 			for i := range ds {
 				if rng.Intn(2) == 0 {
